@@ -104,8 +104,8 @@ def run(ch, config, res):
                 sasl[:] = [["PLAIN"], ["DIGEST-MD5"], ["LOGIN"], ["OAUTHBEARER"]][wl.int("sasl_now", 4)]
                 cfg.sasl_pre = sasl
         kw = {}
-        if authz:
-            kw["authz_id"] = authz
+        if authz and sasl[0] in ("PLAIN", "DIGEST-MD5"):
+            kw["authz_id"] = authz        # only where the mechanism carries one next to the login
         if use_tls:
             kw["starttls"] = True
         o = world.call(client, "connect", "user", "password", **kw)
